@@ -20,7 +20,8 @@ def source_text(src):
 
 
 def to_build_sources(case):
-    return [{"svg": source_text(s), "cps": s["cps"]} for s in case["sources"]]
+    # "name": a glyph name given by a custom glyph map (optional)
+    return [dict({"svg": source_text(s), "cps": s["cps"]}, **({"name": s["name"]} if s.get("name") else {})) for s in case["sources"]]
 
 
 def advance_ok(cfg, vb, adv):
